@@ -35,7 +35,8 @@ func BitSetFilterFromBytes(s []byte, capInBytes int) BitSetFilter {
 }
 
 func (f *BitSetFilter) indexAndOffset(idx int64) (int, int) {
-	return (int(idx) / byteBits) % cap(f.s), int(idx) % byteBits
+	u := uint64(idx)
+	return int((u / byteBits) % uint64(cap(f.s))), int(u % byteBits)
 }
 
 func (f *BitSetFilter) Set(idx int64) {
